@@ -47,10 +47,13 @@ pub type Vars = Vec<(String, String)>;
 impl Route<Rule> {
     pub uninterp spec fn rule(&self) -> Rule;
     #[verifier::external_body] pub fn handler(&self) -> (r: &Rule) ensures *r == self.rule() { unimplemented!() }
-    #[verifier::external_body] pub fn capture(&self, request: &Request) -> HashMap<String, String> { unimplemented!() }
+    #[verifier::external_body] pub fn capture(&self, request: &Request) -> (r: HashMap<String, String>) ensures r@ == caps(*self, *request) { unimplemented!() }
 }
+// marker capture (unit cap) and variable construction (unit mrk): named functions here
+pub uninterp spec fn caps(route: Route<Rule>, request: Request) -> Map<String, String>;
+pub uninterp spec fn vars_of(rule: Rule, captured: Map<String, String>, request: Request) -> Seq<(String, String)>;
 impl Rule {
-    #[verifier::external_body] pub fn variables(&self, markers_captured: &HashMap<String, String>, request: &Request) -> Vars { unimplemented!() }
+    #[verifier::external_body] pub fn variables(&self, markers_captured: &HashMap<String, String>, request: &Request) -> (r: Vars) ensures r@ == vars_of(*self, markers_captured@, *request) { unimplemented!() }
 }
 // marker / variable substitution (under contract in unit mrk): a named function here
 pub uninterp spec fn substituted(s: Seq<char>, vars: Seq<(String, String)>) -> Seq<char>;
@@ -107,11 +110,14 @@ pub open spec fn built_ok(a: Action, rule: Rule, request: Request) -> bool {
             && u.exclude_response_status_codes == excl_of(rule) && u.fallback_log_override is None && u.fallback_rule_id is None }
 }
 
-// R8 outline, ASSUMED contract (str::contains(char) / String::push have no Verus spec): the skipped (marketing) query parameters are appended to
-// the redirect target; only the value of the Location filter depends on it
-#[verifier::external_body]
-pub fn outl_forward_skipped(value: &mut String, request: &Request)
-{ /* verbatim: if let Some(skipped_query_params) = request.path_and_query_skipped.skipped_query_params.as_ref() { if value.contains('?') { value.push('&'); } else { value.push('?'); } value.push_str(skipped_query_params.as_str()); } */ unimplemented!() }
+// C09 "marketing parameters ... forwarded to the redirect target only when so configured": the skipped parameters the request carries (unit pq: present
+// exactly when the configuration says so) are appended to the substituted target with the right separator
+pub open spec fn has_qmark(v: Seq<char>) -> bool { exists|i: int| 0 <= i < v.len() && v[i] == '?' }
+pub open spec fn forwarded(v: Seq<char>, skipped: Option<String>) -> Seq<char> {
+    match skipped { None => v, Some(sk) => v.push(if has_qmark(v) { '&' } else { '?' }) + sk@ }
+}
+// R8 outline, ASSUMED (str::contains is generic over the unstable Pattern trait): whether the text contains a question mark
+#[verifier::external_body] pub fn outl_has_qmark(value: &String) -> (r: bool) ensures r == has_qmark(value@) { /* verbatim: value.contains('?') */ value.contains('?') }
 impl Action {
     //@@ fn src/action/mod.rs :: impl Action / fn from_route_rule -> r
     //@| opt r6i:0
@@ -153,12 +159,14 @@ impl Action {
     //@|     assert(match rl.log_override { None => a.log_override is None, Some(l) => a.log_override matches Some(u) && u.log_override == l && optstr(u.rule_id) == Some(rl.id@) && u.on_response_status_codes@ == codes_of(rl) && u.exclude_response_status_codes == excl_of(rl) && u.fallback_log_override is None && u.fallback_rule_id is None });
     //@| }
     //@| closure `|log_override|` => `|log_override: bool| -> (u: LogOverride) ensures u.log_override == log_override && optstr(u.rule_id) == Some(rl.id@) && u.on_response_status_codes@ == codes_of(rl) && u.exclude_response_status_codes == excl_of(rl) && u.fallback_log_override is None && u.fallback_rule_id is None`
-    //@| outline `if let Some(skipped_query_params) = request.path_and_query_skipped.skipped_query_params.as_ref() { if value.contains('?') { value.push('&'); } else { value.push('?'); } value.push_str(skipped_query_params.as_str()); }` => `outl_forward_skipped(&mut value, request);`
+    //@| outline `value.contains('?')` => `outl_has_qmark(&value)`
     //@| ensures must_skip(route.rule(), *request) ==> r.0 is None,
     //@|     must_apply(route.rule(), *request) ==> r.0 is Some,
     //@|     r.0 is None ==> !r.1 && !r.2 && r.3 is None,
     //@|     r.0 matches Some(a) ==> built_ok(a, route.rule(), *request) && r.1 == (match route.rule().reset { Some(b) => b, None => false })
     //@|         && r.2 == (match route.rule().stop { Some(b) => b, None => false }) && optstr(r.3) == optstr(route.rule().configuration_reset_unit_id),
+    //@|     // the redirect target: markers / variables substituted, then the request's skipped (marketing) parameters appended
+    //@|     r.0 matches Some(a) ==> (has_target(route.rule()) ==> a.header_filters@[0].filter.value@ == forwarded(substituted(route.rule().target.unwrap()@, vars_of(route.rule(), caps(*route, *request), *request)), request.path_and_query_skipped.skipped_query_params)),
 }
 
 //@@ strlits
